@@ -4,6 +4,8 @@ import (
 	"fmt"
 	"image"
 	"image/color"
+	"math"
+	"math/rand"
 
 	"github.com/boombuler/barcode"
 
@@ -129,6 +131,11 @@ func (c09) Gen(tier string, seed int64) []fw.Unit {
 			u.I = append([]int64{4, int64(r.Intn(len(c09Fills))), r.Int63(), 2}, u.I...)
 			us = append(us, u)
 		}
+		if i%3 == 0 || i < 12 {
+			u := s.Unit("scale", "enormous")
+			u.I = append([]int64{5, int64(r.Intn(len(c09Fills))), r.Int63(), 1}, u.I...)
+			us = append(us, u)
+		}
 		// chains
 		for depth := int64(2); depth <= 3; depth++ {
 			u := s.Unit("scale", fmt.Sprintf("chain%d", depth))
@@ -164,7 +171,12 @@ func min64(a, b int64) int64 {
 
 // scaleModel checks one Scale/ScaleWithFill result against the executable model.
 // It returns "" if the result conforms.
-func scaleModel(src barcode.Barcode, res barcode.Barcode, err error, w, h int, fill color.Color) (string, bool) {
+func scaleModel(src barcode.Barcode, res barcode.Barcode, err error, w, h int, fill color.Color) (rmsg string, rfull bool) {
+	defer func() {
+		if pv := recover(); pv != nil {
+			rmsg, rfull = fmt.Sprintf("an accessor of the scaled result panics: %v", pv), false
+		}
+	}()
 	sb := src.Bounds()
 	w0, h0 := sb.Dx(), sb.Dy()
 	dims := src.Metadata().Dimensions
@@ -233,9 +245,15 @@ func scaleModel(src barcode.Barcode, res barcode.Barcode, err error, w, h int, f
 	for _, ox := range oxs {
 		for _, oy := range oys {
 			msg := ""
+			xs, ys := axisSamples(w, ox, f, w0), []int{0}
+			if dims == 1 {
+				ys = axisSamples(h, 0, h, 1)
+			} else {
+				ys = axisSamples(h, oy, f, h0)
+			}
 		pix:
-			for y := 0; y < h; y++ {
-				for x := 0; x < w; x++ {
+			for _, y := range ys {
+				for _, x := range xs {
 					var want color.Color
 					if dims == 1 {
 						if x >= ox && x < ox+f*w0 {
@@ -265,6 +283,59 @@ func scaleModel(src barcode.Barcode, res barcode.Barcode, err error, w, h int, f
 		}
 	}
 	return firstMsg, false
+}
+
+// axisSamples lists the coordinates of one axis the model looks at: all of them up to
+// 4096, otherwise the image edges, the symbol's edges, both sides of module
+// boundaries and module centres (every module up to 48, else a spread), and a fixed
+// pseudo-random scatter.
+func axisSamples(total, off, f, n0 int) []int {
+	if total <= 4096 {
+		out := make([]int, total)
+		for i := range out {
+			out[i] = i
+		}
+		return out
+	}
+	seen := map[int]bool{}
+	var out []int
+	put := func(v int) {
+		if v >= 0 && v < total && !seen[v] {
+			seen[v] = true
+			out = append(out, v)
+		}
+	}
+	for d := 0; d < 3; d++ {
+		put(d)
+		put(total - 1 - d)
+		put(total/2 - 1 + d)
+	}
+	for d := -2; d <= 2; d++ {
+		put(off + d)
+		put(off + f*n0 + d)
+	}
+	step := 1
+	if n0 > 48 {
+		step = n0 / 48
+	}
+	for k := 0; k < n0; k += step {
+		put(off + k*f - 1)
+		put(off + k*f)
+		put(off + k*f + f/2)
+		put(off + (k+1)*f - 1)
+	}
+	put(off + (n0-1)*f)
+	put(off + n0*f - 1)
+	rr := rand.New(rand.NewSource(int64(total) ^ int64(off)*7919))
+	for i := 0; i < 24; i++ {
+		put(rr.Intn(total))
+		if off > 0 {
+			put(rr.Intn(off))
+			put(total - 1 - rr.Intn(off))
+		}
+		put(off + rr.Intn(f*n0))
+	}
+	return out
 }
 
 func gridSizes(s int) []int {
@@ -396,6 +467,25 @@ func (p c09) Exec(c *fw.Ctx, u *fw.Unit) {
 				}
 			}
 		}
+	case 5: // enormous requests: nothing is materialised, so they are ordinary enlargements
+		big := []int{1 << 31, 1<<31 + 7, 1<<32 - 1, 1 << 40, 1<<40 + 12345, 1<<53 - 1, 1<<53 + 1, 1<<62 + 3, math.MaxInt64 - 1, math.MaxInt64}
+		small := []int{1, h0 - 1, h0, h0 + 1, 3*h0 + 1, 10*h0 + 5, 4097}
+		smallW := []int{1, w0 - 1, w0, w0 + 1, 3*w0 + 1, 10*w0 + 5, 4097 + w0}
+		for _, b := range big {
+			for _, s := range small {
+				if s >= 1 {
+					check(src, b, s, fillIdx, "")
+				}
+			}
+			for _, s := range smallW {
+				if s >= 1 {
+					check(src, s, b, fillIdx, "")
+				}
+			}
+			check(src, b, b, fillIdx, "")
+			check(src, b, big[r.Intn(len(big))], r.Intn(len(c09Fills)), "")
+		}
+		c.Cover("enormous_requests", fmt.Sprintf("%dD", dims))
 	case 4: // chains through an exact, padding-free intermediate
 		for k := 2; k <= 4; k++ {
 			hh := k * h0
